@@ -73,10 +73,10 @@ func makeURLKey(u *url.URL) string {
 			ref.Path, ref.RawPath = unescaped, escaped
 		}
 	}
-	normalized := &ref
-	if base, err := url.Parse(u.Scheme + "://" + u.Host); err == nil {
-		normalized = base.ResolveReference(&ref)
-	}
+	// The base is built from the parts as they are: a host that does not survive being printed and
+	// parsed again (an IPv6 zone, "[fe80::1%eth0]") must not leave the path unnormalised.
+	base := &url.URL{Scheme: u.Scheme, Host: u.Host}
+	normalized := base.ResolveReference(&ref)
 
 	// RFC 3986 §6.2.2.1: Scheme is lowercased (already done by [url.Parse]).
 	scheme := normalized.Scheme
